@@ -181,28 +181,108 @@ func (fr *Frame) execMapDelete(ins *ssa.Call, st *State) {
 func (fr *Frame) execSend(ins *ssa.Send, st *State) {
 	fr.vc.unsupportedf("channel send at %s", fr.vc.posOf(ins.Pos()))
 }
+// ---- channels as ghost streams ----
+// A channel handle c carries chlen(c) elements in total (then it is closed); $chpos[c] is the number
+// already received; element i is chelem_<sort>(c, i). Blocking and scheduling are not modelled:
+// a non-nil channel is always either ready with its next element or closed.
+
+func (vc *VC) chposComp() string {
+	vc.comp("$chpos", "(Array Int Int)")
+	return "$chpos"
+}
+
+func (vc *VC) chelemFn(elem types.Type) string {
+	name := "chelem_" + typeKey(elem)
+	if !vc.declared[name] {
+		vc.declared[name] = true
+		vc.decls = append(vc.decls, fmt.Sprintf("(declare-fun %s (Int Int) %s)", name, vc.sortOf(elem)))
+	}
+	if !vc.declared["chlen"] {
+		vc.declared["chlen"] = true
+		vc.decls = append(vc.decls, "(declare-fun chlen (Int) Int)")
+	}
+	return name
+}
+
+// recvTerms returns (has, value) for receiving from channel c in state st (without updating it).
+func (fr *Frame) recvTerms(c Term, elem types.Type, st *State) (string, string) {
+	vc := fr.vc
+	fn := vc.chelemFn(elem)
+	pos := fmt.Sprintf("(select %s %s)", vc.get(st, vc.chposComp()), c.S)
+	has := fmt.Sprintf("(< %s (chlen %s))", pos, c.S)
+	val := fmt.Sprintf("(ite %s (%s %s %s) %s)", has, fn, c.S, pos, vc.zero(elem).S)
+	return has, val
+}
+
 func (fr *Frame) execRecv(ins *ssa.UnOp, st *State) {
-	fr.vc.unsupportedf("channel receive at %s", fr.vc.posOf(ins.Pos()))
+	vc := fr.vc
+	c := fr.val(ins.X)
+	ct := ins.X.Type().Underlying().(*types.Chan)
+	vc.oblige("chan", fr.autoTags(), fr.curReach, fmt.Sprintf("(not (= %s 0))", c.S), "receive from a nil channel blocks forever", ins.Pos(), nil)
+	has, val := fr.recvTerms(c, ct.Elem(), st)
+	hn := vc.fresh("recvok")
+	vc.define(hn, "Bool", has)
+	vn := vc.fresh("recv")
+	vc.define(vn, vc.sortOf(ct.Elem()), val)
+	vc.assumeIf(fr.curReach, vc.wf(ct.Elem(), vn))
+	comp := vc.chposComp()
+	cur := vc.get(st, comp)
+	vc.set(st, comp, fmt.Sprintf("(store %s %s (+ (select %s %s) (ite %s 1 0)))", cur, c.S, cur, c.S, hn))
 	if ins.CommaOk {
-		ct := ins.X.Type().Underlying().(*types.Chan)
-		v := fr.vc.freshVal("recv", ct.Elem(), fr.curReach)
-		ok := fr.vc.fresh("recvok")
-		fr.vc.declare(ok, "Bool")
-		fr.tupleParts[ins] = []Term{v, {ok, "Bool", types.Typ[types.Bool]}}
+		fr.tupleParts[ins] = []Term{{vn, vc.sortOf(ct.Elem()), ct.Elem()}, {hn, "Bool", types.Typ[types.Bool]}}
 		fr.vals[ins] = Term{"tuple", "tuple", ins.Type()}
 		return
 	}
-	fr.bindFresh(ins)
+	fr.vals[ins] = Term{vn, vc.sortOf(ct.Elem()), ins.Type()}
 }
+
 func (fr *Frame) execSelect(ins *ssa.Select, st *State) {
-	fr.vc.unsupportedf("select at %s", fr.vc.posOf(ins.Pos()))
-	fr.vals[ins] = Term{"tuple", "tuple", ins.Type()}
-	var parts []Term
-	tup := ins.Type().(*types.Tuple)
-	for i := 0; i < tup.Len(); i++ {
-		parts = append(parts, fr.vc.freshVal("sel", tup.At(i).Type(), fr.curReach))
+	vc := fr.vc
+	for _, s := range ins.States {
+		if s.Dir != types.RecvOnly {
+			vc.unsupportedf("select with a send case at %s", vc.posOf(ins.Pos()))
+		}
 	}
+	idx := vc.fresh("selidx")
+	vc.declare(idx, vc.isort())
+	comp := vc.chposComp()
+	cur := vc.get(st, comp)
+	var anyReady []string
+	var choice []string
+	newPos := cur
+	okT := "false"
+	var vals []Term
+	for i, s := range ins.States {
+		c := fr.val(s.Chan)
+		ct := s.Chan.Type().Underlying().(*types.Chan)
+		nonnil := fmt.Sprintf("(not (= %s 0))", c.S)
+		anyReady = append(anyReady, nonnil)
+		chosen := fmt.Sprintf("(= %s %s)", idx, vc.ilit(int64(i)))
+		choice = append(choice, and(chosen, nonnil))
+		has, val := fr.recvTerms(c, ct.Elem(), st)
+		hn := vc.fresh("selhas")
+		vc.define(hn, "Bool", has)
+		vn := vc.fresh("selval")
+		vc.define(vn, vc.sortOf(ct.Elem()), val)
+		vc.assumeIf(and(fr.curReach, chosen), vc.wf(ct.Elem(), vn))
+		newPos = fmt.Sprintf("(ite %s (store %s %s (+ (select %s %s) (ite %s 1 0))) %s)", chosen, cur, c.S, cur, c.S, hn, newPos)
+		okT = fmt.Sprintf("(ite %s %s %s)", chosen, hn, okT)
+		vals = append(vals, Term{vn, vc.sortOf(ct.Elem()), ct.Elem()})
+	}
+	if ins.Blocking {
+		vc.oblige("chan", fr.autoTags(), fr.curReach, or(anyReady...), "blocking select has at least one non-nil channel (otherwise it blocks forever)", ins.Pos(), nil)
+		vc.assumeIf(fr.curReach, or(choice...))
+	} else {
+		choice = append(choice, fmt.Sprintf("(= %s %s)", idx, vc.ilit(-1)))
+		vc.assumeIf(fr.curReach, or(choice...))
+	}
+	vc.set(st, comp, newPos)
+	okn := vc.fresh("selok")
+	vc.define(okn, "Bool", okT)
+	parts := []Term{{idx, vc.isort(), types.Typ[types.Int]}, {okn, "Bool", types.Typ[types.Bool]}}
+	parts = append(parts, vals...)
 	fr.tupleParts[ins] = parts
+	fr.vals[ins] = Term{"tuple", "tuple", ins.Type()}
 }
 func (fr *Frame) execClose(ins *ssa.Call, st *State) {
 	fr.vc.unsupportedf("close at %s", fr.vc.posOf(ins.Pos()))
